@@ -176,7 +176,8 @@ CLAIMED.update({
               'With requests issued by listeners / state-event callbacks during transitions (model PMF.L): '
               'C01_listener_edges_documented, C01_listener_terminal_states_final, C01_listener_terminal_transition_completes. '
               'The Python monitor checks the same two clauses on every explored real run.'),
-    'C02': pm('Theorems C02_outcome_agrees / C02_nothing_reported_while_live / C02_future_resolved_iff_terminated: for every history, '
+    'C02': pm('Theorems C02_outcome_agrees / C02_nothing_reported_while_live / C02_future_resolved_iff_terminated (and, with requests '
+              'issued by listeners during transitions, C02_listener_outcome_agrees / C02_listener_nothing_reported_while_live): for every history, '
               'terminal <=> future resolved, with exactly the outcome of the state object, closed, cleanups run once, one terminal '
               'notification; while live nothing is reported. "step_until_terminated() returns": C02_stepper_returns_partial (from any '
               'terminated configuration whose stepping coroutine is not blocked on an unreleased future, finitely many wake-ups end '
